@@ -231,10 +231,34 @@ def coq_assumptions(vfile):
     return ok, res, out
 
 
-def grep_gate():
-    """Reject forbidden vernacular anywhere in coq/*.v (comments stripped). Returns list of hits."""
+def coq_cone(vfiles):
+    """Transitive closure of the project-local (XV.*) dependencies of the given .v files."""
+    seen, todo = [], list(vfiles)
+    allf = set(coq_files())
+    while todo:
+        f = todo.pop()
+        if f in seen or f not in allf:
+            continue
+        seen.append(f)
+        txt = open(os.path.join(COQ, f)).read()
+        txt = re.sub(r"\(\*.*?\*\)", " ", txt, flags=re.S)
+        for sent in re.split(r"\.(?:\s|$)", txt):
+            m = re.match(r"\s*(?:From\s+(\S+)\s+)?Require\s+(?:Import\s+|Export\s+)?(.*)$", sent, flags=re.S)
+            if not m:
+                continue
+            frm = m.group(1)
+            for name in m.group(2).split():
+                if name.startswith("XV."):
+                    todo.append(name[3:] + ".v")
+                elif frm == "XV" or (frm is None and (name + ".v") in allf):
+                    todo.append(name.split(".")[-1] + ".v")
+    return sorted(seen)
+
+
+def grep_gate(files=None):
+    """Reject forbidden vernacular in the given coq/*.v files (default: all; comments stripped)."""
     hits = []
-    for f in coq_files():
+    for f in (files if files is not None else coq_files()):
         txt = open(os.path.join(COQ, f)).read()
         txt = re.sub(r"\(\*.*?\*\)", lambda m: "\n" * m.group(0).count("\n"), txt, flags=re.S)
         stack = []
@@ -320,10 +344,12 @@ class Known:
     def __init__(self):
         self.findings = []   # dicts: property, key, cls, replay, what
         self.fixed = []
-        p = os.path.join(VERIF, "KNOWN_FINDINGS.txt")
-        if not os.path.exists(p):
-            return
-        for line in open(p):
+        paths = [os.path.join(VERIF, "KNOWN_FINDINGS.txt")] + sorted(glob.glob(os.path.join(VERIF, "props", "C*.findings.txt")))
+        lines = []
+        for p in paths:
+            if os.path.exists(p):
+                lines += open(p).read().split("\n")
+        for line in lines:
             line = line.strip()
             if not line or line.startswith("#"):
                 continue
@@ -393,7 +419,7 @@ class Ctx:
             if not r["ok"]:
                 self.broken.append("translator: %s: %s" % (name, r["error"]))
                 ok_all = False
-        hits = grep_gate()
+        hits = grep_gate(coq_cone(list(prop_files) + [n + '.v' for n in (gen_names or [])] + [t[:-3] + '.v' for t in extra_targets if t.endswith('.vo')]))
         if hits:
             self.broken.append("grep gate: " + "; ".join(hits[:5]))
             ok_all = False
